@@ -18,6 +18,7 @@ import (
 	"time"
 
 	"github.com/dgraph-io/badger/v4/pb"
+	"github.com/dgraph-io/badger/v4/verifhook"
 	"github.com/dgraph-io/badger/v4/y"
 	"google.golang.org/protobuf/proto"
 )
@@ -272,6 +273,7 @@ func WriteKeyRegistry(reg *KeyRegistry, opt KeyRegistryOptions) error {
 		fp.Close()
 		return y.Wrapf(err, "Error while writing buf in WriteKeyRegistry")
 	}
+	verifhook.FS("sync", tmpPath, 0, int64(buf.Len()))
 	// In Windows the files should be closed before doing a Rename.
 	if err = fp.Close(); err != nil {
 		return y.Wrapf(err, "Error while closing tmp file in WriteKeyRegistry")
@@ -280,6 +282,7 @@ func WriteKeyRegistry(reg *KeyRegistry, opt KeyRegistryOptions) error {
 	if err = os.Rename(tmpPath, filepath.Join(opt.Dir, KeyRegistryFileName)); err != nil {
 		return y.Wrapf(err, "Error while renaming file in WriteKeyRegistry")
 	}
+	verifhook.FS("rename", filepath.Join(opt.Dir, KeyRegistryFileName), 0, 0)
 	// Sync Dir.
 	return syncDir(opt.Dir)
 }
@@ -360,6 +363,7 @@ func (kr *KeyRegistry) LatestDataKey() (*pb.DataKey, error) {
 		if _, err = kr.fp.Write(buf.Bytes()); err != nil {
 			return nil, err
 		}
+		verifhook.FS("sync", kr.fp.Name(), 0, int64(buf.Len()))
 	}
 	// storeDatakey encrypts the datakey So, placing un-encrypted key in the memory.
 	dk.Data = k
